@@ -7,6 +7,7 @@ import (
 	ipfslog "berty.tech/go-ipfs-log"
 	"berty.tech/go-orbit-db/iface"
 	"berty.tech/go-orbit-db/stores/operation"
+	"berty.tech/go-orbit-db/verifhook"
 )
 
 type kvIndex struct {
@@ -23,6 +24,7 @@ func (i *kvIndex) Get(key string) interface{} {
 
 func (i *kvIndex) UpdateIndex(oplog ipfslog.Log, _ []ipfslog.Entry) error {
 	entries := oplog.Values().Slice()
+	verifhook.Point("index.update.walked", i, oplog)
 	size := len(entries)
 
 	handled := map[string]struct{}{}
